@@ -50,7 +50,7 @@ type Ceiling struct {
 
 // Call the function with the arguments provided.
 func (f *Ceiling) Call(s *slip.Scope, args slip.List, depth int) slip.Object {
-	return ceiling(s, f, args, depth)
+	return reduceValues(ceiling(s, f, args, depth))
 }
 
 func ceiling(s *slip.Scope, f slip.Object, args slip.List, depth int) slip.Values {
